@@ -217,9 +217,18 @@ Definition enc_entrypoint (tbl : list (string * N)) (name : bytes) : bytes :=
   | None => xff :: b8 (nlength name) :: name
   end.
 
+(* strict: a reserved name must use its tag, names have 1..31 bytes *)
 Definition dec_entrypoint (tbl : list (string * N)) (bs : bytes) : option (bytes * bytes) :=
   match bs with
-  | xff :: l :: r => take (N.to_nat (Byte.to_N l)) r
+  | xff :: l :: r =>
+      match take (N.to_nat (Byte.to_N l)) r with
+      | Some (name, r') =>
+          match find_name tbl name with
+          | Some _ => None
+          | None => if (1 <=? length name)%nat && (length name <=? 31)%nat then Some (name, r') else None
+          end
+      | None => None
+      end
   | t :: r => match find_tag tbl (Byte.to_N t) with Some name => Some (name, r) | None => None end
   | [] => None
   end.
@@ -271,6 +280,13 @@ Definition c_transfer_ticket :=
 Definition c_sr_execute := c_pair (c_fix 20) (c_pair (c_fix 32) c_dyn).
 Definition c_activate := c_pair (c_fix 20) (c_fix 20).
 
+(* normalisation: explicit default/Unit parameters are the same operation as no parameters *)
+Definition norm_params (p : option (bytes * bytes)) : option (bytes * bytes) :=
+  match p with
+  | Some (ep, v) => if bytes_eqb ep default_name && bytes_eqb v unit_value then None else p
+  | None => None
+  end.
+
 Definition mop_tag (op : manager_op) : N :=
   match op with
   | MReveal _ _ => 107 | MTransaction _ _ _ => 108 | MOrigination _ _ _ _ => 109 | MDelegation _ => 110
@@ -293,7 +309,15 @@ Definition enc_mop (op : manager_op) : bytes :=
 Definition dec_mop (tag : N) (bs : bytes) : option (manager_op * bytes) :=
   match tag with
   | 107 => omap (fun t => MReveal (fst t) (snd t)) (dec c_reveal bs)
-  | 108 => omap (fun t => MTransaction (fst t) (fst (snd t)) (snd (snd t))) (dec c_transaction bs)
+  | 108 => match dec c_transaction bs with
+           | Some (t, r) =>
+               (* strict: explicit (default, Unit) parameters are not canonical *)
+               match norm_params (snd (snd t)), snd (snd t) with
+               | None, Some _ => None
+               | _, _ => Some (MTransaction (fst t) (fst (snd t)) (snd (snd t)), r)
+               end
+           | None => None
+           end
   | 109 => omap (fun t => MOrigination (fst t) (fst (snd t)) (fst (snd (snd t))) (snd (snd (snd t)))) (dec c_origination bs)
   | 110 => omap MDelegation (dec c_delegation bs)
   | 111 => omap MRegisterGlobalConstant (dec c_register bs)
@@ -315,13 +339,6 @@ Definition wf_mop (op : manager_op) : Prop :=
   | MTransferTicket c t tk a d e => wf c_transfer_ticket (c, (t, (tk, (a, (d, e)))))
   | MSrAddMessages ms => wf c_msgs ms
   | MSrExecuteOutbox r c p => wf c_sr_execute (r, (c, p))
-  end.
-
-(* normalisation: explicit default/Unit parameters are the same operation as no parameters *)
-Definition norm_params (p : option (bytes * bytes)) : option (bytes * bytes) :=
-  match p with
-  | Some (ep, v) => if bytes_eqb ep default_name && bytes_eqb v unit_value then None else p
-  | None => None
   end.
 
 Definition norm_mop (op : manager_op) : manager_op :=
